@@ -338,8 +338,9 @@ def similarity(ctx, R):
             else:
                 # `is_ok(d).then(|| distance_to_weight(d))`: the closure runs exactly when the receiver is true
                 apb, ac = adaptor_of_closure(ctx.F, vb, o)
-                ok = ac is not None and ac.name in ('then', 'then_some') and \
-                    ExprBuilder(apb).arg(ac, 0).has_call('is_ok')
+                if ac is None:
+                    continue       # the combinator was desugared: the spliced copy of this call in vb is judged
+                ok = ac.name in ('then', 'then_some') and ExprBuilder(apb).arg(ac, 0).has_call('is_ok')
             n += 1
             ctx.check(ok, R, vb, 'weight-only-if-is_ok', '', 'a visual weight is produced although is_ok(d) is false / unchecked')
             d_arg = subst_upvars(ctx.F, o, ExprBuilder(o).arg(c, 1))
